@@ -179,6 +179,17 @@ def oracle_parse_locs(pp, gname, mk, s, keep_tabs):
                 probs.append(f"Located {ls},{le} != scan_string {st},{en}")
     except pp.ParseBaseException:
         pass
+    # Located through parse_string: locn_start is the match start AFTER leading whitespace (also for alternations)
+    loc_p = pp.Located(mk())
+    if keep_tabs:
+        loc_p.parse_with_tabs()
+    try:
+        r = loc_p.parse_string(s)
+        ls, le = r["locn_start"], r["locn_end"]
+        if mk().skipWhitespace and ls < le and ls < len(parsed) and parsed[ls] in " \t\r\n" and gname not in ("quoted", "skipto"):
+            probs.append(f"Located start {ls} points at whitespace: parsed[{ls}:{le}]={parsed[ls:le]!r}")
+    except pp.ParseBaseException:
+        pass
     if gname not in ("lineend",):
         ot = pp.original_text_for(mk())
         if keep_tabs:
